@@ -27,6 +27,7 @@ SHAPES = {
     "R2v":   ("$X.into_iter().map($F).collect()", "vf_into_map_collect($X, $F)"),
     "R2vv":  ("$X.into_iter().map($F).collect::<Vec<_>>()", "vf_into_map_collect($X, $F)"),
     "R3":    ("$X.into_iter().flat_map($G).collect::<Vec<_>>()", "vf_flat_map_collect($X, $G)"),
+    "R7":    ("$X.into_iter().map($F).flat_map($G).collect::<Vec<_>>()", "vf_ref_map_flat_map_collect($X, $F, $G)"),
     "R4":    ("$X.into_iter().enumerate().filter($P).map($F).collect()", "vf_enumerate_filter_map_collect($X, $P, $F)"),
     "R4v":   ("$X.into_iter().filter($P).map($F).collect()", "vf_filter_map_collect($X, $P, $F)"),
     "R5any": ("$X.iter().any($P)", "vf_iter_any($X, $P)"),
@@ -39,6 +40,8 @@ SHAPES = {
     "R6r":   ("$X.into_iter().map($F).reduce($G).unwrap_or($D)", "vf_map_reduce_or($X, $F, $G, $D)"),
     # rule E6: conversions through From/Into become calls of the assumed VfInto instances
     "E6":    ("$X.into()", "$X.vf_into()"),
+    # rule E6v: bool -> serde_json::Value inside `impl Queryable for Value` (contracts/value_world.rs)
+    "E6v":   ("$X.into()", "vf_value_from_bool($X)"),
     # str::chars().count(): assumed helper (number of Unicode scalar values)
     "Echars": ("$X.chars().count()", "vf_chars_count($X)"),
 }
@@ -488,6 +491,8 @@ def render_stub(unit: Unit, repo: Repo, log: list) -> str:
     return "    #[verifier::external_body]\n" + render_header(unit, fn, params, True) + "    { unimplemented!() }\n"
 
 
+VALUE_IMPL = "impl Queryable for Value"
+
 PRELUDE = """// GENERATED by /verif/vx — do not edit.  Unit under proof: {unit}
 #![allow(unused_imports, dead_code, unused_variables, non_snake_case)]
 use vstd::prelude::*;
@@ -520,7 +525,25 @@ def build_world(target: str | None, units: dict[str, Unit], repo: Repo, mutate=N
     groups: dict[str, list[Unit]] = {}
     for u in sorted(units.values(), key=lambda u: (u.order, u.name)):
         groups.setdefault(u.impl or "", []).append(u)
+    tgt_impl = units[target].impl if target in units else None
     for impl, us in groups.items():
+        if impl == VALUE_IMPL:
+            # units of `impl Queryable for Value` live in their own world flavour: serde_json::Value is declared opaque
+            # (contracts/value_world.rs) only when one of them is the unit under proof; no other unit calls them by name
+            # (generic code reaches Queryable::extension_custom through the trait-level contract)
+            if tgt_impl != VALUE_IMPL:
+                continue
+            vw = open(os.path.join(CONTRACTS, "value_world.rs")).read()
+            inner = []
+            for u in us:
+                if u.name == target:
+                    txt = render_real(u, repo, log)
+                    if mutate:
+                        txt = mutate(txt)
+                    inner.append(txt)
+            parts.append(vw.replace("/*@@VALUE_UNITS*/", "\n".join(inner)))
+            log.append("E12 serde_json::Value declared opaque (contracts/value_world.rs): its Clone, PartialEq, as_array, From<bool>, Null are assumed contracts over uninterpreted spec functions")
+            continue
         if impl:
             parts.append(f"{impl} {{")
             extras = []
